@@ -362,6 +362,13 @@ def plGenX {D A F M C Z : Type} (o : PlotOps D A F M C Z) (ds : D) (zVals : List
 
 def plLoopNexts : List (String × List String × List String) := [("plot_lines", ["_cols", "_lws", "_mrkrs", "_zlbls", "_zordrs", "_lines"], []), ("plot_scatter", ["_mrkrs", "_zlbls", "_zordrs"], ["_cols"]), ("plot_histogram", ["_cols", "_lws", "_zordrs", "_zlbls"], [])]
 
+def plRowCol {D A F M C Z : Type} (o : PlotOps D A F M C Z) (ds : D) (row col : Option String) : Option (List (List (List (String × Z))) × Nat × Nat) :=
+  match row, col with
+  | some row, some col => some (((o.coordValues ds row).map fun r => ((o.coordValues ds col).map fun c => [(row, r), (col, c)])), (o.coordValues ds row).length, (o.coordValues ds col).length)
+  | some row, none => some (((o.coordValues ds row).map fun r => [[(row, r)]]), (o.coordValues ds row).length, 1)
+  | none, some col => some ([((o.coordValues ds col).map fun c => [(col, c)])], 1, (o.coordValues ds col).length)
+  | none, none => none
+
 def plColorNorm (numeric : Bool) (vmin vmax : Option Bool) (zlimLo zlimHi : Bool) : Option LimV × Option LimV :=
   let vminV : Option LimV := vmin.map fun a => LimV.arg 0 a
   let vmaxV : Option LimV := vmax.map fun a => LimV.arg 1 a
